@@ -14,5 +14,7 @@ func main() {
 		xlate.Spec{Pkg: "util", Recv: "Bitmask", Name: "Set"},
 		xlate.Spec{Pkg: "seq", Recv: "MIDsDistribution", Name: "Add"},
 		xlate.Spec{Pkg: "frac", Recv: "Info", Name: "IsIntersecting"},
+		// the loop of Info.BuildDistribution (InitEmptyDistribution, which allocates the distribution, is not in the subset)
+		xlate.Spec{Pkg: "frac", Recv: "Info", Name: "BuildDistribution", As: "buildLoop", Stmts: []string{"for _, id := range ids"}},
 	)
 }
